@@ -9,11 +9,14 @@ COQ_PRELUDE = I.COQ_PRELUDE
 COQ_CHECK = "check"
 COQ_CASE_TYPE = "case_t"
 TRUSTED = I.TRUSTED
-ASSUMPTIONS = c04.ASSUMPTIONS + ["checkpoints on epoch boundaries strictly before the budget"]
+ASSUMPTIONS = c04.ASSUMPTIONS + ["checkpoints on epoch boundaries strictly before the budget",
+                                 "side sampler objects of a resumed run carry on from the iteration count they have "
+                                 "at the checkpoint in the uninterrupted run"]
 RULE = ("generator of C04 restricted to cases with a start checkpoint (start_epoch / start_update / start_sample, "
-        "80% on epoch boundaries); the resumed stream is compared with the tail of a fresh run of the real code; "
-        "non-trivial = resumed run accepted and shorter than the fresh one; distinct by (geometry,budget,start,configs)")
-search_cases = I.search_cases
+        "80% on epoch boundaries; plus checkpoints given in two ways at once and start_sample off a batch boundary); "
+        "the resumed stream is compared with the tail of a fresh run of the real code, for some cases also the batches "
+        "the real DataLoader delivers; non-trivial = resumed run accepted and shorter than the fresh one; distinct by "
+        "(geometry,budget,start,configs)")
 shrink = I.shrink
 run_impl = I.run_impl
 coq_applicable = c04.coq_applicable
@@ -27,13 +30,39 @@ def gen_cases(rng, tier):
     tries = 0
     while len(out) < n and tries < 100 * n:
         tries += 1
-        c = I.gen_case(rng, big=(tier == "thorough" and rng.random() < 0.3))
+        c = I.gen_bounded(rng, size="mid" if (tier == "thorough" and rng.random() < 0.3) else "small")
         if c["start"] is not None:
             out.append(c)
+    if tier == "thorough":
+        k = 0
+        while k < 500:
+            c = I.gen_bounded(rng, size="large")
+            if c["start"] is not None:
+                out.append(c)
+                k += 1
+    # what the constructor answers to a checkpoint given in two ways / off a batch boundary
+    k = 0
+    while k < (60 if tier == "quick" else 600):
+        c = I.gen_bounded(rng)
+        if c["start"] is not None:
+            m = I.gen_mut(rng, c)
+            if m[0].startswith("start_"):
+                c["mut"] = m
+                out.append(c)
+                k += 1
+    # the real DataLoader: what a resumed loader delivers = the tail of what the uninterrupted one delivers
+    k = 0
+    n_loader = 10 if tier == "quick" else 40
+    while k < n_loader:
+        c = I.gen_bounded(rng)
+        if c["start"] is not None and c["N"] <= 16 and I.start_epoch_of(c) not in ("NotImplementedError", "AssertionError"):
+            c["loader"] = 0 if (tier == "quick" or k % 3) else 2
+            out.append(c)
+            k += 1
     return out
 
 
-def search_cases(rng, tier):  # noqa: F811
+def search_cases(rng, tier):
     for c in I.search_cases(rng, tier):
         if c["start"] is not None:
             yield c
@@ -46,7 +75,8 @@ def oracle(case, obs):
         return None
     e0 = I.start_epoch_of(case)
     if isinstance(e0, str):
-        # not an epoch boundary / not resumable: any explicit refusal is fine, a stream is outside the claim
+        # not an epoch boundary / not resumable / invalid arguments: any explicit refusal is fine, a stream is
+        # outside the claim
         return None
     if obs["result"] in ("NotImplementedError",):
         return None  # explicit refusal is an acceptable answer
@@ -64,6 +94,16 @@ def oracle(case, obs):
         return (f"resumed stream differs from the uninterrupted run's suffix at event {d}: "
                 f"uninterrupted {tail[d:d + 8]} resumed {obs['log'][d:d + 8]} "
                 f"(lengths {len(tail)} vs {len(obs['log'])})")
+    if case.get("loader") is not None:
+        lb, fl = obs.get("loader_batches"), obs.get("fresh_loader")
+        if not isinstance(lb, list) or not isinstance(fl, list):
+            return f"DataLoader(num_workers={case['loader']}) failed: resumed {str(lb)[:200]} fresh {str(fl)[:200]}"
+        nb = sum(1 for ev in fresh[:k] if ev[0] == "Y" and ev[1])
+        if fl[nb:] != lb:
+            d = next((i for i in range(min(len(fl) - nb, len(lb))) if fl[nb + i] != lb[i]), min(len(fl) - nb, len(lb)))
+            return (f"DataLoader(num_workers={case['loader']}): the resumed loader's batch {d} differs from batch "
+                    f"{nb + d} of the uninterrupted loader: {fl[nb + d:nb + d + 1]} vs {lb[d:d + 1]} "
+                    f"({len(fl) - nb} vs {len(lb)} batches)")
     return None
 
 
@@ -71,4 +111,4 @@ def nontrivial_key(case, obs):
     if obs.get("result") != "ok" or case["start"] is None or len(obs.get("fresh", [])) <= len(obs["log"]):
         return None
     return (case["N"], case["B"], case["drop_last"], case["D"], tuple(case["budget"]), tuple(case["start"]),
-            len(case["sides"]))
+            len(case["sides"]), case.get("loader"))
